@@ -79,6 +79,8 @@ var vQSpecials = []string{
 	"X is X; X", "X is Y; Y is X; X", "Names are .Individuals | .Name; Names | Names", "A is .Individuals; B is A | First(1); B | B",
 	"Combine | ?", ".Individuals | .Nodes | First(1) | .Nodes", ".Individuals | .Nodes | .Nodes | .Nodes | Length",
 	"Document3", "Document1 | Document1", ".Individuals | Only(?)", "First(1)", "{ a: { b: { c: ? } } }",
+	".Individuals | .Nodes | {a: .Tag} | .a", ".Individuals | .Nodes | {a: .Tag} | Only(.a = \"x\")", ".Individuals | .Nodes | .Tag = \"NAME\" | .Foo",
+	".Individuals | .Families | .Pointer = \"F1\" | Only(. = true)", ".Individuals | .Nodes | {a: .Tag} | Combine(., .)", ".Individuals | .Nodes | {a: .Tag} | Last(1) | {b: .a} | ?",
 	".Individuals | { n: .Name | Undefined }", ".Individuals | Only(.Name | .String = ) ", ") (", "\"", "| |", "X is ;", ";;;",
 }
 
@@ -157,7 +159,8 @@ func VerifC15_Accessors(cs int) {
 var vQArguments = []string{"First(\"-1\")", "Last(\"-1\")", "First(\"x\")", "Last(\"\")", "First(\"99999999999999999999\")", "Last(\"1.5\")",
 	"First(.Pointer)", "Last(Length)", "First(First(1))", "Only(Length)", "Only(\"true\")", "Only(?)", "NodesWithTagPath(\"\")",
 	"NodesWithTagPath(.Pointer)", "NodesWithTagPath(\"BIRT\", Length)", "Combine(\"a\", \"b\")", "Combine(Length, Length)", "Combine(?, .Individuals)",
-	"Combine(.Individuals | First(1), .Individuals)", "{ a: First(\"-1\") }", "MergeDocumentsAndIndividuals(\"a\", \"b\")",
+	"Combine(.Individuals | First(1), .Individuals)", "Combine(.Individuals, \"foo\")", "Combine(.Individuals, .Individuals | Length)", "Combine(.Individuals, Combine)",
+	"Combine(.Individuals | .Nodes | { tag: .Tag }, { a: \"b\" })", "Combine(.Individuals, ?)", "Combine(.Individuals, .Individuals | First(1) | .Name)", "{ a: First(\"-1\") }", "MergeDocumentsAndIndividuals(\"a\", \"b\")",
 	"MergeDocumentsAndIndividuals(.Individuals, Document1)", "MergeDocumentsAndIndividuals(Document1, Document1)", ". = .", "? = ?", "Length > .Individuals"}
 
 // VerifC15_Arguments: functions with ill-typed, negative, huge and nested arguments.
